@@ -4,7 +4,7 @@
 checks that the tools the checks need are present."""
 import os, shutil, subprocess, sys, time
 sys.path.insert(0, os.path.dirname(os.path.dirname(os.path.abspath(__file__))))
-from vlib import scratch, replay, gen_range, gen_ae, gen_serve, gen_precond, gen_chunker
+from vlib import scratch, replay, gen_range, gen_ae, gen_serve, gen_precond, gen_chunker, gen_mp
 
 
 def gen_all(hdir):
@@ -13,6 +13,7 @@ def gen_all(hdir):
     gen_serve.generate("quick", os.path.join(hdir, "serve_gen.rs"), os.path.join(hdir, "serve_meta.json"))
     gen_precond.generate("quick", os.path.join(hdir, "precond_gen.rs"), os.path.join(hdir, "precond_meta.json"))
     gen_chunker.generate("quick", os.path.join(hdir, "chunker_gen.rs"), os.path.join(hdir, "chunker_meta.json"))
+    gen_mp.generate("quick", os.path.join(hdir, "mp_gen.rs"), os.path.join(hdir, "mp_meta.json"))
 
 
 def warm_kani(features):
